@@ -8,6 +8,7 @@ structure UInv (s : S) : Prop where
   noKill : s.killReq = false
   split : s.handled ++ s.queue = s.accepted
   un : s.phase = .unstarted → s.handled = [] ∧ s.drainCalled = s.marker ∧ s.marker = s.markerSent ∧ s.closed = s.drainCalled
+  sg : s.phase = .starting → s.handled = [] ∧ s.drainCalled = s.marker ∧ s.marker = s.markerSent ∧ s.closed = s.drainCalled
   ru : s.phase = .running → s.queue = [] ∧ s.markerSent = false ∧ s.closed = false ∧ s.drainCalled = false
   st : s.phase = .stopped → s.queue = [] ∧ s.reason = some "T:Drained" ∧ s.drainCalled = true
 
@@ -15,26 +16,46 @@ theorem uinv_init : UInv ({} : S) := by
   constructor <;> simp
 
 def okOp : Op → Bool
-  | .cast => true | .drain => true | .poll ok => ok | _ => false
+  | .cast => true | .drain => true | .poll ok => ok | .enter => true | _ => false
+
+theorem uinv_finishStart (s : S) (h : UInv s) (hp : s.phase = .unstarted ∨ s.phase = .starting) :
+    UInv (finishStart s true).1 := by
+  obtain ⟨h1, h2, h3, h4, h4', h5, h6⟩ := h
+  have hh : s.handled = [] ∧ s.drainCalled = s.marker ∧ s.marker = s.markerSent ∧ s.closed = s.drainCalled := by
+    rcases hp with hp | hp
+    · exact h4 hp
+    · exact h4' hp
+  cases hm : s.marker <;> simp [finishStart, hm, h1, h2] <;> constructor <;> simp_all
 
 theorem uinv_step (s : S) (op : Op) (h : UInv s) (hop : okOp op = true) : UInv (step s op).1 := by
-  obtain ⟨h1, h2, h3, h4, h5, h6⟩ := h
   cases op with
   | stop => simp [okOp] at hop
   | kill => simp [okOp] at hop
   | cast =>
+    obtain ⟨h1, h2, h3, h4, h4', h5, h6⟩ := h
     cases hp : s.phase <;> cases hc : s.closed <;>
       simp [step, hp, hc] <;> constructor <;> simp_all <;> grind
   | drain =>
+    obtain ⟨h1, h2, h3, h4, h4', h5, h6⟩ := h
     cases hp : s.phase <;> cases hm : s.markerSent <;>
       simp [step, hp, hm] <;> constructor <;> simp_all
+  | enter =>
+    obtain ⟨h1, h2, h3, h4, h4', h5, h6⟩ := h
+    cases hp : s.phase
+    · simp [step, hp, h2]; constructor <;> simp_all
+    · simp [step, hp]; exact ⟨h1, h2, h3, h4, h4', h5, h6⟩
+    · simp [step, hp]; exact ⟨h1, h2, h3, h4, h4', h5, h6⟩
+    · simp [step, hp]; exact ⟨h1, h2, h3, h4, h4', h5, h6⟩
   | poll ok =>
     simp [okOp] at hop
     subst hop
     cases hp : s.phase
-    · cases hm : s.marker <;> simp [step, hp, hm, h1, h2] <;> constructor <;> simp_all
-    · simp [step, hp]; exact ⟨h1, h2, h3, h4, h5, h6⟩
-    · simp [step, hp]; exact ⟨h1, h2, h3, h4, h5, h6⟩
+    · simp only [step, hp]; exact uinv_finishStart s h (Or.inl hp)
+    · simp only [step, hp]; exact uinv_finishStart s h (Or.inr hp)
+    · obtain ⟨h1, h2, h3, h4, h4', h5, h6⟩ := h
+      cases hj : s.joined <;> simp [step, hp, hj] <;> constructor <;> simp_all
+    · obtain ⟨h1, h2, h3, h4, h4', h5, h6⟩ := h
+      cases hj : s.joined <;> simp [step, hp, hj] <;> constructor <;> simp_all
 
 theorem uinv_fold (ops : List Op) (hops : ∀ op ∈ ops, okOp op = true) :
     ∀ s, UInv s → UInv (ops.foldl (fun s op => (step s op).1) s) := by
@@ -49,27 +70,38 @@ theorem undisturbed_iff (ops : List Op) : undisturbed ops = true ↔ ∀ op ∈ 
   rw [List.all_eq_true]
   constructor <;> intro h op ho <;> have := h op ho <;> cases op <;> simp_all [okOp]
 
-/-- once started (or failed to start) an actor is never `Unstarted` again -/
-theorem started_stays (s : S) (op : Op) (h : s.phase ≠ .unstarted) : (step s op).1.phase ≠ .unstarted := by
-  cases op <;> cases hp : s.phase <;> simp_all [step] <;> (try split) <;> simp_all
-  all_goals (try split) <;> simp_all
+/-- the start has run to its end (or failed): neither `Unstarted` nor parked in `pre_start` -/
+def started (s : S) : Prop := s.phase = .running ∨ s.phase = .stopped
 
-theorem poll_starts (s : S) (ok : Bool) : (step s (.poll ok)).1.phase ≠ .unstarted := by
-  cases hp : s.phase <;> simp [step, hp]
+theorem finishStart_started (s : S) (ok : Bool) : started (finishStart s ok).1 := by
+  unfold finishStart started
+  simp only
   split
   · simp
   · split
     · simp
     · split <;> simp
 
-theorem started_fold (ops : List Op) : ∀ s : S, s.phase ≠ .unstarted →
-    (ops.foldl (fun s op => (step s op).1) s).phase ≠ .unstarted := by
+/-- once started (or failed to start) an actor is never `Unstarted` or `Starting` again -/
+theorem started_stays (s : S) (op : Op) (h : started s) : started (step s op).1 := by
+  unfold started at *
+  rcases h with hp | hp <;> cases op <;> simp [step, hp] <;> (try split) <;> simp_all
+
+theorem poll_starts (s : S) (ok : Bool) : started (step s (.poll ok)).1 := by
+  cases hp : s.phase
+  · simp only [step, hp]; exact finishStart_started s ok
+  · simp only [step, hp]; exact finishStart_started s ok
+  · exact started_stays s _ (Or.inl hp)
+  · exact started_stays s _ (Or.inr hp)
+
+theorem started_fold (ops : List Op) : ∀ s : S, started s →
+    started (ops.foldl (fun s op => (step s op).1) s) := by
   induction ops with
   | nil => intro s h; exact h
   | cons op t ih => intro s h; exact ih _ (started_stays s op h)
 
 theorem polled_fold (ops : List Op) (ok : Bool) (hmem : Op.poll ok ∈ ops) : ∀ s : S,
-    (ops.foldl (fun s op => (step s op).1) s).phase ≠ .unstarted := by
+    started (ops.foldl (fun s op => (step s op).1) s) := by
   induction ops with
   | nil => simp at hmem
   | cons op t ih =>
@@ -89,13 +121,22 @@ theorem refused_step (s : S) (op : Op) (h : s.refusedAfterDrain = true ∧ (s.dr
     cases hp : s.phase <;> cases hm : s.markerSent <;> simp_all [step]
   | stop => cases hp : s.phase <;> simp_all [step]
   | kill => cases hp : s.phase <;> simp_all [step]
+  | enter => cases hp : s.phase <;> cases hk : s.killReq <;> simp_all [step]
   | poll ok =>
-    cases hp : s.phase <;> simp_all [step]
-    split
-    · simp_all
-    · split
-      · simp_all
-      · split <;> simp_all
+    have hf : (finishStart s ok).1.refusedAfterDrain = true ∧
+        ((finishStart s ok).1.drainCalled = true → (finishStart s ok).1.closed = true) := by
+      unfold finishStart
+      simp only
+      split
+      · exact ⟨h1, h2⟩
+      · split
+        · exact ⟨h1, h2⟩
+        · split <;> exact ⟨h1, h2⟩
+    cases hp : s.phase
+    · simp only [step, hp]; exact hf
+    · simp only [step, hp]; exact hf
+    · cases hj : s.joined <;> simp_all [step]
+    · cases hj : s.joined <;> simp_all [step]
 
 theorem refused_fold (ops : List Op) : ∀ s : S,
     (s.refusedAfterDrain = true ∧ (s.drainCalled = true → s.closed = true)) →
